@@ -441,6 +441,10 @@ pub struct Wits {
     pub redeemers: Option<Vec<Redeemer>>,
     /// Conway map form `{[tag, index]: [data, ex_units]}` instead of the list form
     pub redeemers_map: bool,
+    /// wrap the vkey witness list in tag 258 (Conway)
+    pub vkeys_tag258: bool,
+    /// encode the witness-set map with indefinite length
+    pub map_indef: bool,
 }
 
 impl Wits {
@@ -461,7 +465,8 @@ impl Wits {
     pub fn node(&self, tx_id: &[u8; 32]) -> Node {
         let mut m = vec![];
         if let Some(v) = &self.vkeys {
-            m.push((Node::uint(0), Node::array(v.iter().map(|w| w.node(tx_id)).collect())));
+            let l = Node::array(v.iter().map(|w| w.node(tx_id)).collect());
+            m.push((Node::uint(0), if self.vkeys_tag258 { Node::tag(258, l) } else { l }));
         }
         if let Some(v) = &self.native {
             m.push((Node::uint(1), Node::array(v.iter().map(|s| s.node()).collect())));
@@ -478,7 +483,11 @@ impl Wits {
         if let Some(v) = &self.plutus_v2 {
             m.push((Node::uint(6), Node::array(v.iter().map(|s| Node::bytes(s)).collect())));
         }
-        Node::map(m)
+        if self.map_indef {
+            Node::map_indef(m)
+        } else {
+            Node::map(m)
+        }
     }
 }
 
@@ -496,6 +505,36 @@ pub enum FeeSpec {
     Exact(u64),
     /// a*L + b + d with L the ledger size of the final transaction
     MinPlus(i64),
+}
+
+/// Alternative wire spellings of the same transaction content. The size, fee
+/// and hash rules read raw bytes, so each spelling the decoders accept is a
+/// dimension of its own (all default to the usual cardano-cli spelling).
+#[derive(Clone, Copy, Debug, PartialEq, Default)]
+pub struct Spelling {
+    /// the auxiliary-data slot of a transaction without auxiliary data is CBOR
+    /// `undefined` (f7) instead of `null` (f6)
+    pub aux_slot_undefined: bool,
+    /// the outer transaction array has indefinite length (9f .. ff)
+    pub outer_indef: bool,
+    /// the body map has indefinite length (bf .. ff)
+    pub body_indef: bool,
+    /// the output list of the body has indefinite length
+    pub outputs_indef: bool,
+    /// the fee is written with an 8-byte argument (1b ........)
+    pub fee_width8: bool,
+}
+
+/// Which of the three auxiliary-data shapes is used when `aux` is set.
+#[derive(Clone, Copy, Debug, PartialEq, Default)]
+pub enum AuxForm {
+    /// Shelley: the metadata map itself
+    #[default]
+    Metadata,
+    /// Allegra/Mary: `[metadata, [native scripts]]`
+    ShelleyMa,
+    /// Alonzo+: `#6.259({0: metadata})`
+    PostAlonzo,
 }
 
 #[derive(Clone, Copy, Debug, PartialEq)]
@@ -517,6 +556,8 @@ pub struct TxSpec {
     pub mint: Option<Mint>,
     /// auxiliary data (a metadata map) present?
     pub aux: bool,
+    pub aux_form: AuxForm,
+    pub spelling: Spelling,
     pub aux_hash: HashSpec,
     pub script_data_hash: HashSpec,
     pub collateral: Option<Vec<InRef>>,
@@ -547,6 +588,8 @@ impl TxSpec {
             validity_start: None,
             mint: None,
             aux: false,
+            aux_form: AuxForm::Metadata,
+            spelling: Spelling::default(),
             aux_hash: HashSpec::Absent,
             script_data_hash: HashSpec::Absent,
             collateral: None,
@@ -750,32 +793,48 @@ pub fn aux_node() -> Node {
     Node::map(vec![(Node::uint(1), Node::text("txlab"))])
 }
 
+pub fn aux_node_of(form: AuxForm) -> Node {
+    match form {
+        AuxForm::Metadata => aux_node(),
+        AuxForm::ShelleyMa => Node::array(vec![aux_node(), Node::array(vec![])]),
+        AuxForm::PostAlonzo => Node::tag(259, Node::map(vec![(Node::uint(0), aux_node())])),
+    }
+}
+
+/// The fourth element of the transaction array.
+pub fn aux_slot_node(t: &TxSpec) -> Node {
+    if t.aux {
+        aux_node_of(t.aux_form)
+    } else if t.spelling.aux_slot_undefined {
+        Node::undefined()
+    } else {
+        Node::null()
+    }
+}
+
 fn body_node(case: &Case, fee: u64, change: u64, total_coll: u64) -> Node {
     let t = &case.tx;
     let mut m: Vec<(Node, Node)> = vec![];
     let ins = Node::array(t.inputs.iter().map(|i| i.node()).collect());
     m.push((Node::uint(0), if t.inputs_tag258 { Node::tag(258, ins) } else { ins }));
-    m.push((
-        Node::uint(1),
-        Node::array(
-            t.outputs
-                .iter()
-                .map(|o| {
-                    o.node(match o.coin {
-                        Coin::Fixed(c) => c,
-                        Coin::Change => change,
-                    })
-                })
-                .collect(),
-        ),
-    ));
-    m.push((Node::uint(2), Node::uint(fee)));
+    let outs: Vec<Node> = t
+        .outputs
+        .iter()
+        .map(|o| {
+            o.node(match o.coin {
+                Coin::Fixed(c) => c,
+                Coin::Change => change,
+            })
+        })
+        .collect();
+    m.push((Node::uint(1), if t.spelling.outputs_indef { Node::array_indef(outs) } else { Node::array(outs) }));
+    m.push((Node::uint(2), if t.spelling.fee_width8 { Node::uint_w(fee, 8) } else { Node::uint(fee) }));
     if let Some(x) = t.ttl {
         m.push((Node::uint(3), Node::uint(x)));
     }
     match t.aux_hash {
         HashSpec::Absent => {}
-        HashSpec::Right => m.push((Node::uint(7), Node::bytes(&blake2b_256(&aux_node().to_vec())))),
+        HashSpec::Right => m.push((Node::uint(7), Node::bytes(&blake2b_256(&aux_node_of(t.aux_form).to_vec())))),
         HashSpec::Wrong => m.push((Node::uint(7), Node::bytes(&[0x77; 32]))),
     }
     if let Some(x) = t.validity_start {
@@ -821,7 +880,11 @@ fn body_node(case: &Case, fee: u64, change: u64, total_coll: u64) -> Node {
         m.push((Node::uint(*k), v.clone()));
     }
     m.sort_by_key(|(k, _)| k.as_u64().unwrap_or(u64::MAX));
-    Node::map(m)
+    if t.spelling.body_indef {
+        Node::map_indef(m)
+    } else {
+        Node::map(m)
+    }
 }
 
 pub struct Resolved {
@@ -845,7 +908,7 @@ pub fn build_resolved(case: &Case) -> (Built, Resolved) {
     let fixed_out: u128 = t.outputs.iter().map(|o| o.fixed() as u128).sum();
     let coll_sum: u128 = t.collateral.as_ref().map(|c| c.iter().map(|i| case.env.get(i).map(|u| u.out.fixed() as u128).unwrap_or(0)).sum()).unwrap_or(0);
     let total_coll = coll_sum.saturating_sub(t.collateral_return.as_ref().map(|o| o.fixed() as u128).unwrap_or(0)).min(u64::MAX as u128) as u64;
-    let aux_len = if t.aux { aux_node().to_vec().len() as u64 } else { 1 };
+    let aux_len = aux_slot_node(t).to_vec().len() as u64;
     let zero_id = [0u8; 32];
     let wits_len = t.wits.node(&zero_id).to_vec().len() as u64;
     let mut fee = match t.fee {
@@ -878,7 +941,8 @@ pub fn build_resolved(case: &Case) -> (Built, Resolved) {
     let body_bytes = body.to_vec();
     let tx_id = blake2b_256(&body_bytes);
     let wits = t.wits.node(&tx_id);
-    let tx = Node::array(vec![body, wits, Node::bool(t.valid), if t.aux { aux_node() } else { Node::null() }]).to_vec();
+    let parts = vec![body, wits, Node::bool(t.valid), aux_slot_node(t)];
+    let tx = if t.spelling.outer_indef { Node::array_indef(parts) } else { Node::array(parts) }.to_vec();
     let utxo = case
         .env
         .utxo
